@@ -230,6 +230,9 @@ pub struct HandshakeOracle {
     refused_checked: u64,
     /// creation time of each client's current incarnation, and the time it last stepped
     created_at: BTreeMap<usize, u64>,
+    /// per (server, address): full-size, CRC-valid connection requests delivered with the right /
+    /// a foreign protocol version
+    syn_versions: BTreeMap<(usize, SocketAddr), (u64, u64)>,
     /// per client: (last client step, last server step, largest gap between consecutive steps of
     /// either) during the first 15 s of its current incarnation
     stepping: BTreeMap<usize, (u64, u64, u64)>,
@@ -255,6 +258,7 @@ impl HandshakeOracle {
             forged_seen: 0,
             refused_checked: 0,
             created_at: BTreeMap::new(),
+            syn_versions: BTreeMap::new(),
             stepping: BTreeMap::new(),
         }
     }
@@ -312,6 +316,16 @@ impl Oracle for HandshakeOracle {
                     } else if matches!(&cx.plan.endpoints[*c].kind, EndpointKind::Client { server, .. } if server == ep) {
                         st.2 = st.2.max(now - st.1);
                         st.1 = now;
+                    }
+                }
+            }
+            Rec::Delivered { dst, src_addr, bytes, accepted: true, .. } if bytes.first() == Some(&FRAME_SYN) && bytes.len() == 1472 && matches!(cx.plan.endpoints[*dst].kind, EndpointKind::Server { .. }) => {
+                if uv::Frame::read(bytes).is_some() {
+                    let e = self.syn_versions.entry((*dst, *src_addr)).or_insert((0, 0));
+                    if bytes[1] == 3 {
+                        e.0 += 1;
+                    } else {
+                        e.1 += 1;
                     }
                 }
             }
@@ -389,6 +403,13 @@ impl Oracle for HandshakeOracle {
                     let acked = self.acks_consumed.get(&(*ep, a)).cloned().unwrap_or_default();
                     if sent.intersection(&acked).next().is_none() {
                         return viol(prop, "server_connect_without_nonce", format!("server {} reported Connect({}) although that address never returned a nonce the server sent it (sent {:?}, returned {:?})", ep, a, sent, acked), *call);
+                    }
+                    // a protocol version mismatch is refused: an address all of whose connection
+                    // requests carried a foreign version can never be connected
+                    if let Some((right, wrong)) = self.syn_versions.get(&(*ep, a)) {
+                        if *right == 0 && *wrong > 0 {
+                            return viol(prop, "wrong_version_client_connected", format!("server {} reported Connect({}) although every connection request from that address ({}) carried a foreign protocol version", ep, a, wrong), *call);
+                        }
                     }
                     // nonces are per handshake: forget them so that a later connection from the
                     // same address needs its own
@@ -510,11 +531,12 @@ pub struct LimitsOracle {
     overlapping_syns: u64,
     pending_now: u64,
     tracked_now: u64,
+    closed_since: BTreeMap<(usize, SocketAddr), u64>,
 }
 
 impl LimitsOracle {
     pub fn new(property: &'static str) -> Self {
-        Self { property, active: BTreeSet::new(), max_active_seen: 0, max_total_seen: 0, checks: 0, refusals: 0, server_full_events: BTreeSet::new(), client_connects: BTreeSet::new(), client_errors: BTreeMap::new(), ended: 0, overlapping_syns: 0, pending_now: 0, tracked_now: 0 }
+        Self { property, active: BTreeSet::new(), max_active_seen: 0, max_total_seen: 0, checks: 0, refusals: 0, server_full_events: BTreeSet::new(), client_connects: BTreeSet::new(), client_errors: BTreeMap::new(), ended: 0, overlapping_syns: 0, pending_now: 0, tracked_now: 0, closed_since: BTreeMap::new() }
     }
 }
 
@@ -550,6 +572,7 @@ impl Oracle for LimitsOracle {
             }
             Rec::Event { call, ep, peer_addr, ev, .. } => match (&cx.plan.endpoints[*ep].kind, ev) {
                 (EndpointKind::Server { max_active, .. }, AppEvent::Connect) => {
+                    self.closed_since.remove(&(*ep, peer_addr.unwrap()));
                     self.active.insert(peer_addr.unwrap());
                     self.max_active_seen = self.max_active_seen.max(self.active.len() as u64);
                     if self.active.len() as u64 > *max_active {
@@ -559,6 +582,9 @@ impl Oracle for LimitsOracle {
                 (EndpointKind::Server { .. }, AppEvent::Disconnect) | (EndpointKind::Server { .. }, AppEvent::Error(ERR_TIMEOUT)) => {
                     if self.active.remove(&peer_addr.unwrap()) {
                         self.ended += 1;
+                    }
+                    if matches!(ev, AppEvent::Disconnect) {
+                        self.closed_since.insert((*ep, peer_addr.unwrap()), cx.now_ns);
                     }
                 }
                 (EndpointKind::Client { .. }, AppEvent::Connect) => {
@@ -582,6 +608,17 @@ impl Oracle for LimitsOracle {
                     }
                     self.pending_now = pending;
                     self.tracked_now = s.clients_len as u64;
+                    // a closed entry (the peer disconnected) is kept for 20 s to answer repeated
+                    // requests, whatever the silence timeout is configured to
+                    for c in s.clients.iter() {
+                        if c.state == 3 {
+                            if let Some(t0) = self.closed_since.get(&(*ep, c.address)) {
+                                if cx.now_ns > *t0 + 21_500_000_000 {
+                                    return viol(prop, "closed_entry_lingers", format!("server {} still tracks the closed connection of {} {:.1} s after that client disconnected (20 s linger)", ep, c.address, (cx.now_ns - *t0) as f64 / 1e9), *call);
+                                }
+                            }
+                        }
+                    }
                     if s.clients_len as u64 > *max_total {
                         return viol(prop, "too_many_tracked_connections", format!("server {} tracks {} connections (connecting, established, closing), max_total_connections = {}", ep, s.clients_len, max_total), *call);
                     }
